@@ -473,5 +473,27 @@ func (vc *VC) localAtInstr(name string, at ssa.Instruction, heap *Heap) *Val {
 	if best != nil {
 		return vc.val(best)
 	}
+	// a compiler-named loop variable (go/ssa's "rangeindex" of a range loop): the phi of the closest loop head that
+	// dominates this point, i.e. its value at the last visit of that head
+	var bestPhi *ssa.Phi
+	for _, b := range vc.fn.Blocks {
+		if b != atBlock && !b.Dominates(atBlock) {
+			continue
+		}
+		for _, ins := range b.Instrs {
+			phi, ok := ins.(*ssa.Phi)
+			if !ok {
+				break
+			}
+			if phi.Comment == name {
+				if _, ok := vc.vals[phi]; ok && (bestPhi == nil || bestPhi.Block().Dominates(b)) {
+					bestPhi = phi
+				}
+			}
+		}
+	}
+	if bestPhi != nil {
+		return vc.val(bestPhi)
+	}
 	return nil
 }
